@@ -57,7 +57,7 @@ fn walk<const N: usize>() {
     cover!(n == 3, "three tags walked");
 }
 
-// @harness props=C01 tier=quick panic=allow
+// @harness props=C01,C08 tier=quick panic=allow
 // @encodes BootInformation::load BootInformation::tags TagIter::next DynSizedStructure::header payload
 // @bound fully symbolic 48-byte region (every tag type/size/order that fits); unwinding assertions on
 #[cfg_attr(kani, kani::proof)]
@@ -280,7 +280,7 @@ fn rsdp_v2_exact(b: &Aligned<48>) -> &RsdpV2Tag {
     DynSizedStructure::<TagHeader>::ref_from_slice(&b.0[..]).unwrap().cast::<RsdpV2Tag>()
 }
 
-// @harness props=C01 tier=quick panic=allow
+// @harness props=C01,C08 tier=quick panic=allow
 // @encodes RsdpV2Tag::checksum_is_valid cast::<RsdpV2Tag>
 // @bound RSDP v2 tag (declared size 44) as an exact 48-byte memory object, stored RSDP length symbolic over all 2^32 values; unwind 50 > object size
 #[cfg_attr(kani, kani::proof)]
@@ -361,7 +361,7 @@ fn mmap<const N: usize>() {
     }
 }
 
-// @harness props=C01 tier=quick panic=allow
+// @harness props=C01,C08 tier=quick panic=allow
 // @encodes BootInformation::memory_map_tag MemoryMapTag::{memory_areas,entry_size,entry_version,dst_len} MemoryArea accessors
 // @bound fully symbolic 64-byte region (up to one 24-byte area next to other tags)
 #[cfg_attr(kani, kani::proof)]
@@ -449,7 +449,7 @@ fn framebuffer<const N: usize>() {
     }
 }
 
-// @harness props=C01 tier=quick panic=allow
+// @harness props=C01,C08 tier=quick panic=allow
 // @encodes BootInformation::framebuffer_tag FramebufferTag::{buffer_type,address,pitch,width,height,bpp,dst_len} framebuffer::Reader
 // @bound fully symbolic 64-byte region (framebuffer tag with up to 16 colour-info bytes); stored colour count symbolic over all 2^16 values
 #[cfg_attr(kani, kani::proof)]
